@@ -349,4 +349,17 @@ VF_E int* ip_set_op(int which, int const* f1, int const* l1, int const* f2, int 
     else { ICMP_HI(c, r = etl::set_symmetric_difference(f1, l1, f2, l2, d, cmp)); }
     return r;
 }
+
+// ---- ARGUMENT ORDER of binary predicates: an asymmetric predicate (first < second) makes a swapped call visible.
+// [alg.search]/[alg.find.first.of]/[alg.adjacent.find]/[mismatch]/[alg.equal]/[alg.unique]: pred(*i, value) / pred(*i, *j) with the
+// element of the FIRST range (or the earlier element) as the first argument.
+struct ord_lt { auto operator()(int const& a, int const& b) const -> bool { return a < b; } };
+VF_E int const* ao_search_n(int const* f, int const* l, int count, int const& v) { return etl::search_n(f, l, count, v, ord_lt{}); }
+VF_E int const* ao_search(int const* f, int const* l, int const* sf, int const* sl) { return etl::search(f, l, sf, sl, ord_lt{}); }
+VF_E int const* ao_find_end(int const* f, int const* l, int const* sf, int const* sl) { return etl::find_end(f, l, sf, sl, ord_lt{}); }
+VF_E int const* ao_find_first_of(int const* f, int const* l, int const* sf, int const* sl) { return etl::find_first_of(f, l, sf, sl, ord_lt{}); }
+VF_E int const* ao_adjacent_find(int const* f, int const* l) { return etl::adjacent_find(f, l, ord_lt{}); }
+VF_E long ao_mismatch(int const* f, int const* l, int const* f2, int const* l2) { return etl::mismatch(f, l, f2, l2, ord_lt{}).first - f; }
+VF_E bool ao_equal(int const* f, int const* l, int const* f2, int const* l2) { return etl::equal(f, l, f2, l2, ord_lt{}); }
+VF_E int* ao_unique(int* f, int* l) { return etl::unique(f, l, ord_lt{}); }
 }
